@@ -68,7 +68,8 @@ func c50(r *core.Run) {
 	r.Explanation = "Decided clauses: (R1) acceptance grounds of the access decision functions — sema.(Checker).isReadableMember, isWriteableMember, AccessCheckMode.IsReadableAccess / IsWriteableAccess and PrimitiveAccess.PermitsAccess: " +
 		"every way these functions return true is the conjunction of branch outcomes recorded from the reviewed tree (described by callee / operator and the data-flow origins of the operands: the member's container type is the current container, " +
 		"access(contract) with the containing contract, access(account) with LocationsInSameAccount or the host's handler, an entitlement set permitted by the reference's authorization, …); a ground that loses a condition, or a new way of returning true, is reported; " +
-		"(R2) the reports: InvalidAccessError is controlled by the false outcome of isReadableMember in visitMember, InvalidAssignmentAccessError by the false outcome of isWriteableMember, and the constant-field assignment error is still constructed in visitMemberExpressionAssignment."
+		"(R2) the reports: InvalidAccessError is controlled by the false outcome of isReadableMember in visitMember, InvalidAssignmentAccessError by the false outcome of isWriteableMember, and the constant-field assignment error is still constructed in visitMemberExpressionAssignment; " +
+		"(R3) every path (set of branch outcomes) of visitMemberExpressionAssignment that reported AssignmentToConstantMemberError on the reviewed tree is still covered by a reporting path that needs no further condition."
 	r.NotDecided = "that the checker's accept/reject relation is the specified one for every program (the decision functions' logic is compared with its reviewed form, not derived from the specification); initialisation-once of `let` fields over all control-flow shapes."
 	var fns []*ssa.Function
 	for _, a := range [][2]string{{"Checker", "isReadableMember"}, {"Checker", "isWriteableMember"}, {"AccessCheckMode", "IsReadableAccess"}, {"AccessCheckMode", "IsWriteableAccess"}, {"PrimitiveAccess", "PermitsAccess"}} {
@@ -120,6 +121,89 @@ func c50(r *core.Run) {
 		r.Check(n >= 1, "R2.reports", "sema.(Checker).visitMemberExpressionAssignment: AssignmentToConstantMemberError", fn.Pos(), "constant-field assignment is reported", "the constant-field assignment error is no longer constructed")
 	}
 	r.Floor("R2.reports", 3)
+
+	// R3 the constant-field assignment error keeps firing where it fired: every path of visitMemberExpressionAssignment on which
+	// AssignmentToConstantMemberError was reported on the reviewed tree (as a set of branch outcomes) is still covered by a
+	// reporting path that needs no additional condition
+	if fn := mustFn(r, "R3.constassign", "sema", "Checker", "visitMemberExpressionAssignment"); fn != nil {
+		// the closure that reports, and direct constructions of the error
+		reports := func(in ssa.Instruction) string {
+			switch x := in.(type) {
+			case *ssa.Alloc:
+				if _, tn := core.TypeName(x.Type()); tn == "AssignmentToConstantMemberError" {
+					return "report"
+				}
+			case ssa.CallInstruction:
+				if mc, ok := x.Common().Value.(*ssa.MakeClosure); ok {
+					if lit, ok := mc.Fn.(*ssa.Function); ok {
+						hit := false
+						core.Instrs(lit, true, func(y ssa.Instruction) {
+							if al, ok := y.(*ssa.Alloc); ok {
+								if _, tn := core.TypeName(al.Type()); tn == "AssignmentToConstantMemberError" {
+									hit = true
+								}
+							}
+						})
+						if hit {
+							return "report"
+						}
+					}
+				}
+			}
+			return ""
+		}
+		paths, complete := core.PathSummaries(fn, 4096, reports)
+		if !complete {
+			r.Undecided("R3.constassign", core.SSAKey(fn), "too many paths to enumerate")
+		}
+		set := map[string]bool{}
+		for _, p := range paths {
+			parts := strings.SplitN(p, " ⇒ ", 2)
+			if len(parts) == 2 && strings.Contains(parts[1], "report") {
+				set[parts[0]] = true
+			}
+		}
+		simplified := core.SimplifyGrounds(sortedKeys(set))
+		set = map[string]bool{}
+		for _, g := range simplified {
+			set[g] = true
+		}
+		got := map[string][]string{core.SSAKey(fn): simplified}
+		if genMode() {
+			genJSON(r, "c50_constassign_grounds", got)
+		} else {
+			var pinned map[string][]string
+			if r.Table("c50_constassign_grounds", &pinned) {
+				conj := func(s string) map[string]bool {
+					m := map[string]bool{}
+					for _, c := range strings.Split(s, " ∧ ") {
+						if c != "" {
+							m[c] = true
+						}
+					}
+					return m
+				}
+				for i, pg := range pinned[core.SSAKey(fn)] {
+					pc := conj(pg)
+					covered := false
+					for c := range set {
+						sub := true
+						for k := range conj(c) {
+							if !pc[k] {
+								sub = false
+							}
+						}
+						if sub {
+							covered = true
+						}
+					}
+					r.Check(covered, "R3.constassign", core.SSAKey(fn)+": reporting path #"+itoa(i+1), fn.Pos(), "the error is still reported under these outcomes",
+						"on a path on which the constant-field assignment error was reported it is no longer reported (or only under an additional condition): "+pg)
+				}
+			}
+		}
+	}
+	r.Floor("R3.constassign", 2)
 	_ = strings.TrimSpace
 }
 
